@@ -564,24 +564,31 @@ theorem gen_nameAccessor (n m : Int) (h : Valid n m) (hm : m ≠ 0) (hn : 2 ≤ 
       have e1 : (2 * k + 1 - 1) / 2 = k := by omega
       simp only [hm, ho, false_and, if_false, if_true, ne_eq, one_ne_zero, not_false_eq_true, true_and, ge_iff_le,
         show (3 : Int) ≤ 2 * k + 1 by omega, e1]
-      generalize hv : Py.int _ = v
-      have hz : v = k := by rw [← hv]; apply Py.int_shift0; push_cast; ring1
-      subst hz
-      simp only [show ¬ (v < 0) by omega, if_false]
+      first
+      | (generalize hv : Py.int _ = v
+         have hz : v = k := by rw [← hv]; apply Py.int_shift0; push_cast; ring1
+         subst hz
+         simp only [show ¬ (v < 0) by omega, if_false])
+      | (congr 1; (try split_ifs) <;> omega)      -- the ordinal written with integer division
     · -- even column
       have ho' : m % 2 = 0 := by omega
       simp only [hm, ho, ho', false_and, if_false, ne_eq, not_true_eq_false, zero_ne_one]
-      by_cases hneg : m < 0
-      · obtain ⟨k, rfl⟩ : ∃ k, n = 2 * k + -m := ⟨(n + m) / 2, by rw [if_pos hneg] at h2; omega⟩
-        simp only [hneg, if_true]
-        have e1 : (2 * k + -m - -m) / 2 = k := by omega
-        rw [e1]
-        congr 1; apply Py.int_shift0; push_cast; ring1
-      · obtain ⟨k, rfl⟩ : ∃ k, n = 2 * k + m := ⟨(n - m) / 2, by rw [if_neg hneg] at h2; omega⟩
-        simp only [hneg, if_false]
-        have e1 : (2 * k + m - m) / 2 = k := by omega
-        rw [e1]
-        congr 1; apply Py.int_shift0; push_cast; ring1
+      first
+      | done      -- identical to the model after unfolding
+      | skip
+        by_cases hneg : m < 0
+        · obtain ⟨k, rfl⟩ : ∃ k, n = 2 * k + -m := ⟨(n + m) / 2, by rw [if_pos hneg] at h2; omega⟩
+          simp only [hneg, if_true]
+          have e1 : (2 * k + -m - -m) / 2 = k := by omega
+          first
+          | (rw [e1]; first | done | (congr 1; first | omega | (apply Py.int_shift0; push_cast; ring1)))
+          | (congr 1; first | omega | (apply Py.int_shift0; push_cast; ring1))
+        · obtain ⟨k, rfl⟩ : ∃ k, n = 2 * k + m := ⟨(n - m) / 2, by rw [if_neg hneg] at h2; omega⟩
+          simp only [hneg, if_false]
+          have e1 : (2 * k + m - m) / 2 = k := by omega
+          first
+          | (rw [e1]; first | done | (congr 1; first | omega | (apply Py.int_shift0; push_cast; ring1)))
+          | (congr 1; first | omega | (apply Py.int_shift0; push_cast; ring1))
 
 /-- the ordinal `nm_to_name` gives a spherical term `(n, 0)` is `n/2 - 1`, every even `n` -/
 theorem gen_sphericalAccessor (n m : Int) (hn : n % 2 = 0) :
